@@ -87,7 +87,20 @@ func (p *placeholder) Provides() []ast.Expr {
 
 // TrimFilename is a utility function used for trimming just the file
 // name without ".go" suffix to guarantee uniqueness of generated cff
-// functions.
+// functions. The result is used inside identifiers: letters and digits
+// are kept, and anything else a file name may contain ("-", ".", and
+// also "_", which separates the parts of a generated name) is escaped so
+// that different file names stay different.
 func TrimFilename(path string) string {
-	return strings.ReplaceAll(strings.TrimSuffix(filepath.Base(path), ".go"), "_", "")
+	name := strings.TrimSuffix(filepath.Base(path), ".go")
+	var sb strings.Builder
+	for _, r := range name {
+		switch {
+		case 'a' <= r && r <= 'z', 'A' <= r && r <= 'Z', '0' <= r && r <= '9':
+			sb.WriteRune(r)
+		default:
+			fmt.Fprintf(&sb, "_%x_", r)
+		}
+	}
+	return sb.String()
 }
